@@ -187,6 +187,13 @@ class SourceDataWrapper(ABC):
             Structured numpy.ndarray objects with the consecutive chunks of the source data.
         """
 
+        # all data sets must have the same number of rows (otherwise longer ones would be cut and single-row ones repeated)
+        total_n_rows = self._data_source[next(iter(self._mapping.values()))].shape[0]
+        for dataset_name in self._mapping.values():
+            if (n_rows := self._data_source[dataset_name].shape[0]) != total_n_rows:
+                raise ValueError(f"All data sets must have the same number of rows; "
+                                 f"got {n_rows} rows of '{dataset_name}' vs {total_n_rows} of the first data set")
+
         if chunk_rows is None:
             chunk_rows = self._n_rows
             n_full_chunks = 1
